@@ -8,19 +8,19 @@ TB = "Trusted base: Go toolchain/runtime, stdlib SHA-1/256/512 compression funct
 CHECKS = {
  "C01": dict(
   technique="runtime reference-model monitor at the API boundary + HMAC-constructor hook (observes key/message, substitutes the digest to drive the formatting stage)",
-  text="Every GenerateHOTP execution of a seeded boundary/random workload is compared byte-for-byte with an independent RFC 4226 model (own HMAC, big-integer modulus); unsupported digits/hash values must yield an error; Param fields generation does not use (Skew, Period) take arbitrary values; through the verif hook the monitor also observes the exact (key, message) of the HMAC and pushes chosen 31-bit values through the real truncation/modulus/formatting code. One-goroutine histories (field-shifted neighbours, keys differing in one byte, adjacent-counter walks, counters that agree with a base counter in their low or high b bits for every b) and the js/wasm build's own copy of the derivation (compiled natively through an overlay) are judged by the same oracle. Exploration, not enumeration of 2^64 counters or 2^31 values. A reduced version of the differential also runs compiled for a 32-bit target (GOARCH=386, cmd/arch386).",
+  text="Every GenerateHOTP execution of a seeded boundary/random workload is compared byte-for-byte with an independent RFC 4226 model (own HMAC, big-integer modulus); unsupported digits/hash values must yield an error; Param fields generation does not use (Skew, Period) take arbitrary values; through the verif hook the monitor also observes the exact (key, message) of the HMAC and pushes chosen 31-bit values through the real truncation/modulus/formatting code. One-goroutine histories (field-shifted neighbours, keys differing in one byte, adjacent-counter walks, counters that agree with a base counter in their low or high b bits for every b) and the js/wasm build's own copy of the derivation (compiled natively through an overlay) are judged by the same oracle. Exploration, not enumeration of 2^64 counters or 2^31 values. A reduced version of the differential also runs compiled for a 32-bit target (GOARCH=386, cmd/arch386). Neighbour keys include the key followed by zero bytes and zero-padded to block widths, under every hash.",
   design="7/C01"),
  "C02": dict(
   technique="runtime reference-model monitor (differential against independent HOTP at floor(unix/period)) over generated instants, zones, monotonic readings and periods",
-  text="Each GenerateTOTP execution is compared with the reference HOTP at floor(unix/period); one second is rendered as 20 different time.Time values (nanoseconds, zones, monotonic reading) and each must give the reference code; step boundaries +-2 s; Skew (unused by generation) takes arbitrary values; defaults (nil params, period 0) are checked consistently across GenerateTOTP, ValidateTOTP and GenerateTOTPURL. Held on the executions produced. A reduced version of the differential also runs compiled for a 32-bit target (GOARCH=386, cmd/arch386). One-goroutine histories with one secret and parameter set: walks over adjacent steps and time steps that agree with a base step in their low or high b bits for every b (what a packed or truncated memo key confuses).",
+  text="Each GenerateTOTP execution is compared with the reference HOTP at floor(unix/period); one second is rendered as 20 different time.Time values (nanoseconds, zones, monotonic reading) and each must give the reference code; step boundaries +-2 s; Skew (unused by generation) takes arbitrary values; defaults (nil params, period 0) are checked consistently across GenerateTOTP, ValidateTOTP and GenerateTOTPURL. Held on the executions produced. A reduced version of the differential also runs compiled for a 32-bit target (GOARCH=386, cmd/arch386). One-goroutine histories with one secret and parameter set: walks over adjacent steps and time steps that agree with a base step in their low or high b bits for every b (what a packed or truncated memo key confuses). A base call alternates with calls that differ in exactly one of period, digits, hash or the instant inside the step.",
   design="7/C02"),
  "C03": dict(
   technique="runtime window-membership oracle: verdicts of ValidateHOTP compared with the reference set of codes for counters max(0,c-s)..c+s",
-  text="For generated (secret, digits, hash, counter, window) the genuine codes at distance -(s+3)..+(s+3) and hostile strings (edits, truncations, padding, Unicode digits, bytes sharing bits with the right digit, sign/space look-alikes of leading-zero codes, value+2^32 aliases of 10-digit codes) are submitted; the verdict must equal membership in the independently computed window set (so coincidences cannot alarm); windows > 10 must be refused; nil parameters mean 6/SHA-1/2. Exploration over boundary counters (c<s, 2^31, 2^32, 2^63) and random ones. One-goroutine validation histories over adjacent and bit-related counters (own code, window edges, first codes outside).",
+  text="For generated (secret, digits, hash, counter, window) the genuine codes at distance -(s+3)..+(s+3) and hostile strings (edits, truncations, padding, Unicode digits, bytes sharing bits with the right digit, sign/space look-alikes of leading-zero codes, value+2^32 aliases of 10-digit codes) are submitted; the verdict must equal membership in the independently computed window set (so coincidences cannot alarm); windows > 10 must be refused; nil parameters mean 6/SHA-1/2. Exploration over boundary counters (c<s, 2^31, 2^32, 2^63) and random ones. One-goroutine validation histories over adjacent and bit-related counters (own code, window edges, first codes outside). Histories of related windows (same first counter, last counter or centre, another skew) with the codes of every counter around both.",
   design="7/C03"),
  "C04": dict(
   technique="runtime window-membership oracle on ValidateTOTP + derivation counting through the HMAC-constructor hook (logical work bound, cut-off at 64)",
-  text="As C03 with time steps; refused skews 11..2^64-1 are probed functionally (genuine codes at distance 0/1/11/skew must be rejected with an error) and by counting HMAC derivations per call through the hook (more than 21 is a violation, a runaway loop is cut off by a sentinel panic instead of hanging); without the hook, huge skews run in a child process judged by allocation counts. No wall-clock verdicts. One-goroutine validation histories over adjacent and bit-related time steps.",
+  text="As C03 with time steps; refused skews 11..2^64-1 are probed functionally (genuine codes at distance 0/1/11/skew must be rejected with an error) and by counting HMAC derivations per call through the hook (more than 21 is a violation, a runaway loop is cut off by a sentinel panic instead of hanging); without the hook, huge skews run in a child process judged by allocation counts. No wall-clock verdicts. One-goroutine validation histories over adjacent and bit-related time steps. Histories of related windows (same first step, last step or centre, another skew) with the codes of every step around both.",
   design="7/C04"),
  "C05": dict(
   technique="runtime reference-model monitor for RFC 6287 + HMAC-constructor hook recording the exact message bytes",
